@@ -35,14 +35,24 @@ type Publisher struct {
 // destination. Which may be a file system, or somewhere else of your choosing.
 // If you only wish to generate files you should use a DirectoryFileWriter.
 func NewPublisher(doc *gedcom.Document, options *PublishShowOptions) *Publisher {
-	return &Publisher{
+	publisher := &Publisher{
 		doc:          doc,
 		options:      options,
 		indexLetters: GetIndexLetters(doc, options.LivingVisibility),
-
-		// placesMap can be nil because we handle found the places yet.
-		individuals: GetIndividuals(doc, nil),
 	}
+
+	// The places have to be known before the individuals are given their page
+	// names: a person called "London England" must not take the file name of
+	// the place "London, England", and every link to that person has to use
+	// the same name as their page. Without place pages there is nothing to
+	// collide with (and nothing to link to), so placesMap stays nil.
+	if options.ShowPlaces {
+		publisher.Places()
+	}
+
+	publisher.individuals = GetIndividuals(doc, publisher.placesMap)
+
+	return publisher
 }
 
 func (publisher *Publisher) Publish(fileWriter core.FileWriter, parallel int) (err error) {
